@@ -64,6 +64,7 @@ def d17_1(ctx):
                   f"cycle({sp}, start={st}): needs 0 <= start < stop <= 65535 (start == stop repeats one value; stop > 65535 cannot be encoded as UINT)", start=st, stop=sp)
     # symbolic walk yield -> yield
     problems, npaths = [], 0
+    n_resets = [0]
     for y in yields:
         paths = g.paths(y, set(yields), max_visits=2)
         for path in paths:
@@ -106,6 +107,7 @@ def d17_1(ctx):
                 if state[1] == 0:
                     problems.append(f"a path between two yields leaves `{var}` unchanged (lines {[p.lineno for p in path if p.lineno]}): the same count is yielded twice")
             elif state[0] == "start":
+                n_resets[0] += 1
                 # reset: feasible only under the recorded guard; need previous != start for every site
                 if guard is None:
                     problems.append(f"`{var}` is reset to `{start_p}` unconditionally between two yields")
@@ -133,6 +135,8 @@ def d17_1(ctx):
             over.append(y)
     if over:
         problems.append("no comparison of the counter with `stop` guards the yield: counts leave the UINT range")
+    if not n_resets[0] and not problems:
+        problems.append(f"no path between two yields resets `{var}` to `{start_p}`: the counter grows past `{stop_p}` and leaves the UINT range")
     if problems:
         for p_ in sorted(set(problems)):
             ctx.violation(ckey(fn, "consecutive"), func, p_, paths=npaths)
